@@ -124,6 +124,7 @@ type E struct {
 	Want   int      // call: results requested by the context when that differs from the declaration (error cases)
 	Line   int
 	Raw    bool // string literal printed as raw string
+	Spell  string // explicit source spelling of a literal (its meaning stays V / S)
 }
 
 type S struct {
@@ -306,6 +307,12 @@ func (p *printer) expr(e *E) string {
 	e.Line = p.line
 	switch e.K {
 	case "int":
+		if e.Spell != "" {
+			if p.goMode {
+				return e.Ty.Src(true) + "(" + e.Spell + ")"
+			}
+			return e.Spell
+		}
 		if e.V < 0 && !p.goMode {
 			return fmt.Sprint(e.V)
 		}
@@ -313,6 +320,9 @@ func (p *printer) expr(e *E) string {
 	case "bool":
 		return fmt.Sprint(e.B)
 	case "str":
+		if e.Spell != "" {
+			return e.Spell
+		}
 		return goStringLit(e.S, e.Raw)
 	case "zero":
 		return "nil"
